@@ -85,7 +85,7 @@ theorem handleResponse_nf (s : H2Stream) (fs : Fields) (es : Bool) :
     ((s.handleResponse fs es).1 = .ok none ∧ CtlEq s (s.handleResponse fs es).2 ∧
         (s.handleResponse fs es).2.pastHeaders = false ∧ es = false) ∨
     (∃ res, (s.handleResponse fs es).1 = .ok (some res) ∧ res.body ≠ .piped ∧ (s.handleResponse fs es).2 = s ∧
-        (s.isHead = false → es = true)) ∨
+        (s.isHead = false → es = true) ∧ (s.isHead = true → res.body = .noBody)) ∨
     (∃ res, (s.handleResponse fs es).1 = .ok (some res) ∧ res.body = .piped ∧
         (s.handleResponse fs es).2 = { s with pipe := s.pipe.setBuffer, bytesRemain := res.contentLength } ∧
         s.isHead = false ∧ es = false) := by
@@ -106,12 +106,12 @@ theorem handleResponse_nf (s : H2Stream) (fs : Fields) (es : Bool) :
         right; left; exact ⟨rfl, ⟨rfl, rfl, rfl, rfl, rfl, rfl, rfl, rfl, rfl⟩, rfl, by simpa using hes⟩
   · split
     · rename_i hh
-      right; right; left; exact ⟨_, rfl, by simp, rfl, by simp [hh]⟩
+      right; right; left; exact ⟨_, rfl, by simp, rfl, by simp [hh], fun _ => rfl⟩
     · rename_i hh
       split
       · rename_i hes
         right; right; left
-        refine ⟨_, rfl, ?_, rfl, fun _ => hes⟩
+        refine ⟨_, rfl, ?_, rfl, fun _ => hes, fun h => absurd h hh⟩
         simp only []
         split <;> (try split) <;> simp
       · rename_i hes
@@ -132,6 +132,7 @@ inductive HeadersNF (s : H2Stream) (es : Bool) : H2Stream → Prop
       s1.pastHeaders = false → es = false → HeadersNF s es s1
   | bodiless (s1 : H2Stream) (r : H2Res) : CtlEq s s1 → ¬Ignored s → s.readClosed = false → s.pastHeaders = false →
       s1.pastHeaders = true → r.body ≠ .piped → (s.isHead = false → es = true) →
+      (s.isHead = true → r.body = .noBody) →
       HeadersNF s es (if es then ({ s1 with res := some r } : H2Stream).endStream else { s1 with res := some r })
   | piped (s1 : H2Stream) (r : H2Res) : CtlEq s s1 → ¬Ignored s → s.readClosed = false → s.pastHeaders = false →
       s1.pastHeaders = true → r.body = .piped → s.isHead = false → es = false →
@@ -166,9 +167,9 @@ theorem processHeaders_nf (s : H2Stream) (fs : Fields) (es : Bool) : HeadersNF s
     generalize hr : ({ s with pastHeaders := true } : H2Stream).handleResponse fs es = r at hnf
     obtain ⟨a, s'⟩ := r
     simp only at hnf ⊢
-    rcases hnf with ⟨e, rfl, he, hc, hpp⟩ | ⟨rfl, hc, hp, hes⟩ | ⟨res, rfl, hb, rfl, hh⟩ | ⟨res, rfl, hb, rfl, hh, hes⟩
+    rcases hnf with ⟨e, rfl, he, hc, hpp⟩ | ⟨rfl, hc, hp, hes⟩ | ⟨res, rfl, hb, rfl, hh, hnb⟩ | ⟨res, rfl, hb, rfl, hh, hes⟩
     · exact .rejected s' e (hc0.trans hc) he h0 (fun _ => by simpa using hpp)
     · exact .interim s' (hc0.trans hc) h0 h1' h2' hp hes
-    · exact .bodiless _ res hc0 h0 h1' h2' rfl hb hh
+    · exact .bodiless _ res hc0 h0 h1' h2' rfl hb hh hnb
     · subst hes
       exact .piped _ res hc0 h0 h1' h2' rfl hb hh rfl
